@@ -7,8 +7,10 @@ from props import solver_common as sc
 ID = 'C17'
 PROPS_FILE = 'Props/C17.v'
 MODEL_FILES = ['Solver/Solver.v', 'Solver/SolverF.v', 'Solver/SolveAll.v', 'Tracer/Tracer.v', 'Tracer/TracerSolve.v', 'Tracer/TracerF.v']
-K_NAME = ('K_tracer (Tracer.traced_solve_t / traced_solve_period / traced_solve and their untraced twins instantiated with PrimFloat '
-          'vs TracerMixin over scripted models: state, Trace objects and result after every call of a call sequence)')
+K_NAME = ('K_tracer (Tracer.traced_solve_t, TracerSolve.traced_solve_period_all / traced_solve_all — solve() from its start= / end= LABELS: '
+          'validation, iter_periods defaults from lags / leads, list.index lookup — and their untraced twins Solver.solve_t_M, '
+          'SolveAll.solve_period_M / solve_M, instantiated with PrimFloat, vs TracerMixin over scripted and parser-built models: state, '
+          'every Trace object (names, labels, values), result lists / exception class + cause after every call of a call sequence)')
 RULE = ('scripted models (1-4 variables, 1-5 periods) run as a sequence of 1-4 calls on ONE traced instance and on an untraced twin: '
         'structured lattice entry point {solve_t, solve_period, solve} x trace in {omitted, None, False, True, one name, list / tuple of '
         'names, [], \'\'} x reset in {omitted, False, True} x C02/C06 scenarios (convergence at k=1..3, min_iter/max_iter boundaries, '
@@ -16,7 +18,8 @@ RULE = ('scripted models (1-4 variables, 1-5 periods) run as a sequence of 1-4 c
         'invalid, warnings with and without catch_first_error, exceptions in _evaluate / pre-hook / post-hook, pre-existing NaN, offsets in '
         'and out of the span, infeasible periods (lags/leads), hooks that write), then random call sequences incl. repeated solves of one '
         'period (same names, other names of the same width, another width = finding #16, reset=True, tracing switched off in between), '
-        'TRACE_VARIABLES None / subset / empty, unknown names, t outside the span; finally parser-built (C01-grammar) models — 8 scripts with '
+        'TRACE_VARIABLES None / subset / empty, unknown names, t outside the span, solve() with unknown start / end labels, start > end, lags / '
+        'leads up to and beyond the span length with default start / end; finally parser-built (C01-grammar) models — 8 scripts with '
         'lags, leads, parameters, 1/X, log, exp (contractive, divergent, faulting) — whose generated _evaluate is the inner oracle: the '
         'columns it leaves after every pass (recorded on the untraced twin) become the action script of the Coq model for that run. '
         'Non-trivial = some call ran >= 2 evaluation passes or ended in an exception; distinct by hash of the whole case.')
@@ -388,11 +391,11 @@ def oracle(case, obs):
         names = names_of(case, a)
         periods = _call_periods(case, call)
         if not tw['traces_untouched']:
-            bad('C17|%s|twin-trace-written' % ent, 'call %d: the untraced twin has a non-empty Trace' % ci)
+            bad('C17|TracerMixin|twin-trace-written', 'call %d: the untraced twin has a non-empty Trace' % ci)
         # ---- tracing off: no trace is written, and the call is the plain call
         if not on:
             if s['traces'] != prev['traces']:
-                bad('C17|%s|trace-written-with-tracing-off' % ent, 'call %d (trace=%r): a Trace changed although tracing is off' % (ci, a))
+                bad('C17|TracerMixin|trace-written-with-tracing-off', 'call %d (trace=%r): a Trace changed although tracing is off' % (ci, a))
         # ---- the property's domain: names are model variables, the period is in the span
         in_domain = (not on) or (all(0 <= i < nv for i in names) and periods is not None)
         same = all(s[k] == tw[k] for k in ('out', 'vals', 'status', 'iters', 'log'))
@@ -406,7 +409,7 @@ def oracle(case, obs):
             clean = (s['out'][0] == 'raise' and s['out'][1] in ('KeyError', 'IndexError')
                      and all(s[k] == prev[k] for k in ('vals', 'status', 'iters')))
             if not clean:
-                bad('C17|%s|unknown-name-or-period-not-rejected-cleanly' % ent, 'call %d: expected KeyError/IndexError with no change, got %s' % (ci, s['out']))
+                bad('C17|TracerMixin|unknown-name-or-period-not-rejected-cleanly', 'call %d: expected KeyError/IndexError with no change, got %s' % (ci, s['out']))
             break
         # finding #16: an addressed period was traced before with another number of names (and reset is off).  The traced
         # call then dies in Trace.append (ValueError, label already appended) — reported under its own signature whether
@@ -420,14 +423,14 @@ def oracle(case, obs):
             break
         if not same:
             diff = [k for k in ('out', 'vals', 'status', 'iters', 'log') if s[k] != tw[k]]
-            bad('C17|%s|traced-differs-from-untraced' % ent, 'call %d (trace=%r, reset=%r): traced and untraced runs differ in %s: traced out=%s, untraced out=%s'
+            bad('C17|TracerMixin|traced-differs-from-untraced', 'call %d (trace=%r, reset=%r): traced and untraced runs differ in %s: traced out=%s, untraced out=%s'
                 % (ci, a, call.get('reset'), diff, s['out'], tw['out']))
             break           # later calls start from different states
         # ---- tracing on: what the Trace of each addressed period holds
         if on:
             untouched = [p for p in range(n) if p not in periods]
             if any(s['traces'][p] != prev['traces'][p] for p in untouched):
-                bad('C17|%s|other-period-trace-changed' % ent, 'call %d: the Trace of a period the call does not address changed' % ci)
+                bad('C17|TracerMixin|other-period-trace-changed', 'call %d: the Trace of a period the call does not address changed' % ci)
             if not reset:
                 _check_shapes(case, call, ci, s, prev, names, periods, bad)
         prev = {'vals': s['vals'], 'status': s['status'], 'iters': s['iters'], 'traces': s['traces']}
@@ -474,10 +477,10 @@ def _check_shapes(case, call, ci, s, prev, names, periods, bad):
         before, after = prev['traces'][p], s['traces'][p]
         nb = len(before['index'])
         if after['index'][:nb] != before['index'] or after['values'][:len(before['values'])] != before['values']:
-            bad('C17|%s|earlier-snapshots-lost' % ent, 'call %d period %d: reset=False but earlier snapshots changed' % (ci, p))
+            bad('C17|TracerMixin|earlier-snapshots-lost', 'call %d period %d: reset=False but earlier snapshots changed' % (ci, p))
             continue
         if not before['values'] and after['names'] != names:
-            bad('C17|%s|trace-names' % ent, 'call %d period %d: Trace.names=%s, traced variables=%s' % (ci, p, after['names'], names))
+            bad('C17|TracerMixin|trace-names', 'call %d period %d: Trace.names=%s, traced variables=%s' % (ci, p, after['names'], names))
         if before['values'] and after != before and after['names'] != names:
             # (same width, or the call would have died: finding #16) the snapshots just appended hold `names`, the Trace says otherwise
             bad(STALE_SIG, 'call %d period %d: %s(..., trace=%r) appended snapshots of variables %s to a Trace whose names stay %s'
@@ -485,7 +488,7 @@ def _check_shapes(case, call, ci, s, prev, names, periods, bad):
         new_idx = after['index'][nb:]
         new_val = after['values'][len(before['values']):]
         if len(new_idx) != len(new_val):
-            bad('C17|%s|index-values-length' % ent, 'call %d period %d: %d labels but %d snapshots' % (ci, p, len(new_idx), len(new_val)))
+            bad('C17|TracerMixin|index-values-length', 'call %d period %d: %d labels but %d snapshots' % (ci, p, len(new_idx), len(new_val)))
             continue
         k = s['iters'][p]
         # the stored solution of the period: what the store holds when the call returns; inside a multi-period solve()
@@ -499,25 +502,25 @@ def _check_shapes(case, call, ci, s, prev, names, periods, bad):
         if how in ('solved', 'unsolved'):
             exp = _expected_labels(k, how == 'solved')
             if new_idx != exp:
-                bad('C17|%s|label-sequence-%s' % (ent, how), 'call %d period %d (%s, iterations=%d): labels %s, expected %s' % (ci, p, how, k, new_idx, exp))
+                bad('C17|TracerMixin|label-sequence-%s' % how, 'call %d period %d (%s, iterations=%d): labels %s, expected %s' % (ci, p, how, k, new_idx, exp))
                 continue
             if new_val[-1] != stored:
-                bad('C17|%s|final-snapshot-%s' % (ent, how), 'call %d period %d: final snapshot %s differs from the stored values %s' % (ci, p, new_val[-1], stored))
+                bad('C17|TracerMixin|final-snapshot-%s' % how, 'call %d period %d: final snapshot %s differs from the stored values %s' % (ci, p, new_val[-1], stored))
             for j in range(0, k + 1):
                 rec = cols.get(p, {}).get(('before', 0) if j == 0 else ('pass', j))
                 if rec is None or new_val[2 + j] != [rec[i] for i in names]:
-                    bad('C17|%s|snapshot-j' % ent, 'call %d period %d: snapshot %d = %s, values after pass %d = %s' % (ci, p, j, new_val[2 + j], j, rec and [rec[i] for i in names]))
+                    bad('C17|TracerMixin|snapshot-j', 'call %d period %d: snapshot %d = %s, values after pass %d = %s' % (ci, p, j, new_val[2 + j], j, rec and [rec[i] for i in names]))
                     break
             if ent != 'solve':
                 if new_val[0] != [prev['vals'][i][p] for i in names]:
-                    bad('C17|%s|start-snapshot' % ent, 'call %d period %d: start snapshot %s differs from the values on entry' % (ci, p, new_val[0]))
+                    bad('C17|TracerMixin|start-snapshot', 'call %d period %d: start snapshot %s differs from the values on entry' % (ci, p, new_val[0]))
                 off = call['opts']['offset']
                 exp_before = [prev['vals'][i][p + off] if (off and i in case['endo']) else prev['vals'][i][p] for i in names]
                 if new_val[1] != exp_before:
-                    bad('C17|%s|before-snapshot' % ent, 'call %d period %d: before snapshot %s, expected %s' % (ci, p, new_val[1], exp_before))
+                    bad('C17|TracerMixin|before-snapshot', 'call %d period %d: before snapshot %s, expected %s' % (ci, p, new_val[1], exp_before))
         else:
             if not _is_prefix_of_run(new_idx) or 'end' in new_idx[:-1]:
-                bad('C17|%s|label-sequence-error-path' % ent, 'call %d period %d: labels %s are not a prefix of start, before, 0, 1, ...' % (ci, p, new_idx))
+                bad('C17|TracerMixin|label-sequence-error-path', 'call %d period %d: labels %s are not a prefix of start, before, 0, 1, ...' % (ci, p, new_idx))
 
 
 def nontrivial(case, obs):
